@@ -125,6 +125,13 @@ async fn scenario(sim: Arc<Sim>, unit: Value) -> Obs {
     for d in 0..dead {
         targets.push(Target { name: DEAD_NAMES[d], addrs: vec![hole(4 + d)], live_addr: None, high: true, may_dial: true, id: peer_id_of_key(40 + d as u8) });
     }
+    // a High peer whose known address never answers but which itself dials in for a while
+    // (a connection made any other way does not shorten the back-off its failed dials earned)
+    let inbound: Vec<u64> = unit["inbound_ms"].as_array().map(|a| a.iter().map(|x| x.as_u64().unwrap()).collect()).unwrap_or_default();
+    let t6 = if inbound.is_empty() { None } else { Some(sim.start(&NodeSpec::new(17).config(quiet_cfg())).unwrap()) };
+    if let Some(t6) = &t6 {
+        targets.push(Target { name: "t6-dials-in", addrs: vec![hole(9)], live_addr: None, high: true, may_dial: true, id: t6.peer_id() });
+    }
     let targets = targets;
     // t5 dials X before the table is installed
     if unit["conn_limit"].as_u64() != Some(0) {
@@ -166,6 +173,15 @@ async fn scenario(sim: Arc<Sim>, unit: Value) -> Obs {
             let _ = x2.connect(addr).await;
         });
     }
+    if let Some(t6) = &t6 {
+        let (t6, xa, xid, from, to) = (t6.clone(), x.local_addr(), x.peer_id(), inbound[0], inbound[1]);
+        tokio::spawn(async move {
+            tokio::time::sleep(ms(from)).await;
+            let _ = t6.connect(xa).await;
+            tokio::time::sleep(ms(to - from)).await;
+            let _ = t6.disconnect(xid);
+        });
+    }
     // drive the schedule
     let mut last = 0u64;
     for (t, up) in &sched {
@@ -185,7 +201,7 @@ async fn scenario(sim: Arc<Sim>, unit: Value) -> Obs {
     macro_rules! viol {
         ($k:expr, $($arg:tt)*) => { o.violations.push(($k.to_string(), format!($($arg)*))) };
     }
-    let cfgs = format!("[interval {}ms jitter {}ms step {}ms max {}ms cap {cap} table {table_variant} schedule {:?}{}{}]", unit["interval_ms"], unit["jitter_ms"], unit["step_ms"], unit["max_ms"], unit["schedule"], match unit["conn_limit"].as_u64() { Some(l) => format!(" max_concurrent_connections {l}"), None => String::new() }, if dead > 0 { format!(" + {dead} High peers that never answer") } else { String::new() });
+    let cfgs = format!("[interval {}ms jitter {}ms step {}ms max {}ms cap {cap} table {table_variant} schedule {:?}{}{}]", unit["interval_ms"], unit["jitter_ms"], unit["step_ms"], unit["max_ms"], unit["schedule"], match unit["conn_limit"].as_u64() { Some(l) => format!(" max_concurrent_connections {l}"), None => String::new() }, if dead > 0 { format!(" + {dead} High peers that never answer") } else if !inbound.is_empty() { format!(" + a High peer with a dead address that dials in itself from {} to {} ms", inbound[0], inbound[1]) } else { String::new() });
     // connected(p, t): is p listed by X at time t (from snapshot + timestamped events)
     let connected_at = |id: &anemo::PeerId, t: u64| -> bool {
         let mut c = snap.contains(id);
@@ -472,7 +488,7 @@ impl Check for C13 {
         CheckMeta {
             property: "C13",
             level: "exploration",
-            rule: "configurations (interval x jitter x back-off step x max back-off x in-flight cap) x known-peer table variants (High with 1/2/3 addresses incl. black holes, Allowed, Never, self, address-less, already connected) x reachability schedules of a High target (up/down toggles from a menu of instants), each run for 60-120 virtual seconds; a connection limit of 0 / 1 (already filled) that background dials must ignore; 2 or 4 further High peers that never answer, with caps 1 and 2 (at every check with free slots, as many peers that may be dialed are dialed); small caps also with explicit dials to a silent address in flight (they hold slots); attempts read from the fabric; distinct = distinct (attempt count, failure count, final connectivity); plus a sweep of the back-off arithmetic".into(),
+            rule: "configurations (interval x jitter x back-off step x max back-off x in-flight cap) x known-peer table variants (High with 1/2/3 addresses incl. black holes, Allowed, Never, self, address-less, already connected) x reachability schedules of a High target (up/down toggles from a menu of instants), each run for 60-120 virtual seconds; a connection limit of 0 / 1 (already filled) that background dials must ignore; a High peer with a dead address that itself dials in for a while during its back-off; 2 or 4 further High peers that never answer, with caps 1 and 2 (at every check with free slots, as many peers that may be dialed are dialed); small caps also with explicit dials to a silent address in flight (they hold slots); attempts read from the fabric; distinct = distinct (attempt count, failure count, final connectivity); plus a sweep of the back-off arithmetic".into(),
             assumptions: vec!["tick instants are start + n*(interval + jitter) with the jitter pinned through the hook (values 0 and 900 ms)".into(), "connect timeout 1.5 s so that a dial to a black hole lasts exactly that long".into()],
             exhaustive: true,
         }
@@ -553,6 +569,17 @@ impl Check for C13 {
                             u.push(json!({"kind":"run","interval_ms":1_000,"jitter_ms":0,"step_ms":step,"max_ms":max,"cap":cap,"table":table,"schedule":sc,"horizon_s":70,"dead":dead}));
                         }
                     }
+                }
+            }
+        }
+        // a High peer with a dead address that dials in itself for two seconds during its back-off
+        for (step, max) in [(10_000u64, 15_000u64), (3_000, 60_000)] {
+            for inbound in [json!([5_000, 7_000]), json!([4_200, 4_700])] {
+                for (si, sc) in schedules.iter().enumerate() {
+                    if si > 1 && tier == Tier::Quick {
+                        continue;
+                    }
+                    u.push(json!({"kind":"run","interval_ms":1_000,"jitter_ms":0,"step_ms":step,"max_ms":max,"cap":100,"table":1,"schedule":sc,"horizon_s":70,"inbound_ms":inbound}));
                 }
             }
         }
